@@ -10,3 +10,6 @@ open Just.C10
 #print axioms parsed_is_wellformed
 #print axioms format_of_any_source
 #print axioms header_roundtrip
+#print axioms recipe_roundtrip
+#print axioms assignment_roundtrip
+#print axioms alias_roundtrip
